@@ -22,7 +22,11 @@ def main():
             continue
         m = json.load(open(mp))
         r = res.get(sid, {})
-        if r.get("caught"):
+        others = {k.split("@")[1]: v for k, v in res.items() if k.startswith(sid + "@") and v.get("caught")}
+        if not r.get("caught") and others:
+            k0 = sorted(others)[0]
+            caught = f"by **{k0}** (where the removed check lives): `" + "`, `".join(others[k0].get("mechanisms", [])[:2]) + "`"
+        elif r.get("caught"):
             caught = "`" + "`, `".join(r.get("mechanisms", [])[:3]) + "`"
         elif r:
             caught = "**missed** (exit %s)" % r.get("exit")
